@@ -5,11 +5,14 @@ import (
 	"errors"
 	"fmt"
 	"io"
+	"os"
 	"runtime"
 	"sort"
 	"strconv"
 	"strings"
 	"sync"
+	"sync/atomic"
+	"time"
 
 	"verif/harness/internal/ev"
 	"verif/harness/internal/s3c"
@@ -103,14 +106,72 @@ type fragSpec struct {
 	splits bool
 }
 
-func (w *worker) exec(mode, algo, seed string, data []byte, fr fragSpec, bs *bufSched, tail error) outcome {
+func (w *worker) exec(id, mode, algo, seed string, data []byte, fr fragSpec, bs *bufSched, tail error) outcome {
 	sh := &shim{data: data, frags: fr.frags, eofAlone: fr.eofAlone, tail: tail}
 	rd, err := w.ctor(mode, algo, seed, sh)
 	if err != nil {
 		return outcome{err: fmt.Errorf("constructor: %w", err)}
 	}
 	w.runs++
-	return consume(rd, sh, bs, w.scratch, len(data))
+	fl := &flight{id: id, mode: mode, algo: algo, data: data, fr: fr, buf: bs.cls, lane: w.lane}
+	startFlightMonitor(w.r.c)
+	flights.Store(w, fl)
+	defer flights.Delete(w)
+	return consume(rd, sh, bs, w.scratch, len(data), &fl.calls)
+}
+
+// ---------------------------------------------------------------------------
+// watchdog of the direct lanes: a Read of the reader under test that never returns cannot be interrupted
+// (it runs in this process), so it is reported and the run ends.
+
+type flight struct {
+	id, mode, algo, buf, lane string
+	data                      []byte
+	fr                        fragSpec
+	calls                     atomic.Int64 // Read calls that returned
+}
+
+var (
+	flights       sync.Map // *worker -> *flight
+	flightMonitor sync.Once
+	finishRule    string
+)
+
+const readStallLimit = 60 * time.Second // one Read of at most 1 MiB of decoded data
+
+func startFlightMonitor(c *ev.Ctx) {
+	flightMonitor.Do(func() {
+		go func() {
+			type seen struct {
+				fl    *flight
+				calls int64
+				since time.Time
+			}
+			last := map[any]*seen{}
+			for {
+				time.Sleep(2 * time.Second)
+				now := time.Now()
+				flights.Range(func(k, v any) bool {
+					fl := v.(*flight)
+					s := last[k]
+					if s == nil || s.fl != fl || s.calls != fl.calls.Load() {
+						last[k] = &seen{fl, fl.calls.Load(), now}
+						return true
+					}
+					if now.Sub(s.since) < readStallLimit {
+						return true
+					}
+					c.Eval(1)
+					c.Violation("direct:read-never-returns:"+readerOf(fl.mode), fl.id, map[string]any{"lane": fl.lane, "mode": fl.mode, "algo": fl.algo,
+						"stream": preview(fl.data, 300), "stream_len": len(fl.data), "fragments": head(fl.fr.frags, 12), "eof_alone": fl.fr.eofAlone, "buffer_class": fl.buf,
+						"reads_returned_before_the_stall": fl.calls.Load(), "stalled_for_s": int(now.Sub(s.since) / time.Second),
+						"note": "the Read call runs inside this process and cannot be interrupted: the run ends here"})
+					os.Exit(c.Finish(finishRule+" [ended early: a Read never returned]", 1))
+					return false
+				})
+			}
+		}()
+	})
 }
 
 func head(v []int, n int) []int {
@@ -521,7 +582,7 @@ func (w *worker) posShort(st *bstream) {
 		if !w.want(id) {
 			return
 		}
-		o := w.exec(sp.mode, sp.algo, dSeed, st.enc, fr, bs, io.EOF)
+		o := w.exec(id, sp.mode, sp.algo, dSeed, st.enc, fr, bs, io.EOF)
 		w.judgePos(id, st, fr, bs, o)
 	}
 	bufsFor := func(id string) []*bufSched {
@@ -607,7 +668,7 @@ func (w *worker) posLong(st *bstream) {
 		if bs.fixed > 0 && bs.fixed < 16 && bs.vary == nil && L > 70000 && !w.r.c.Thorough() {
 			bs = w.bufFixed(64)
 		}
-		o := w.exec(sp.mode, sp.algo, dSeed, st.enc, fr, bs, io.EOF)
+		o := w.exec(id, sp.mode, sp.algo, dSeed, st.enc, fr, bs, io.EOF)
 		w.judgePos(id, st, fr, bs, o)
 	}
 	for i, k := range bufSizes {
@@ -795,7 +856,7 @@ func (w *worker) runNeg(id string, st *bstream, nc *negCase, prefix, focus int, 
 		if !w.want(lid) {
 			continue
 		}
-		o := w.exec(nc.mode, nc.algo, nc.seed, nc.data, v.fr, v.bs, io.EOF)
+		o := w.exec(lid, nc.mode, nc.algo, nc.seed, nc.data, v.fr, v.bs, io.EOF)
 		w.judgeNeg(lid, nc, v.fr, v.bs, o)
 	}
 }
@@ -1061,7 +1122,7 @@ func (w *worker) negTargeted(st *bstream) {
 	if w.want(gid + "/src-error") {
 		srcErr := errors.New("c12: simulated failure of the underlying reader")
 		for _, alone := range []bool{false, true} {
-			o := w.exec(sp.mode, sp.algo, dSeed, st.enc, fragSpec{eofAlone: alone, cls: "whole"}, w.bufFixed(bigBuf), srcErr)
+			o := w.exec(gid+"/src-error", sp.mode, sp.algo, dSeed, st.enc, fragSpec{eofAlone: alone, cls: "whole"}, w.bufFixed(bigBuf), srcErr)
 			if o.panicMsg == "" && o.err == io.EOF {
 				w.obs[fmt.Sprintf("not judged (C02): %s reader reports success although the underlying reader ended with an error (error delivered alone=%v)", readerOf(sp.mode), alone)]++
 			}
